@@ -721,10 +721,12 @@ class FunctionTerms:
             # a method of a record (NamedTuple / frozen dataclass) value: evaluated in place with self = the record
             mod, cls = self._record_class(f[1])
             for n in cls.body:
-                if isinstance(n, ast.FunctionDef) and n.name == f[2] and not n.decorator_list:
+                is_prop = isinstance(n, ast.FunctionDef) and len(n.decorator_list) == 1 and isinstance(n.decorator_list[0], ast.Name) and n.decorator_list[0].id == "property"
+                if isinstance(n, ast.FunctionDef) and n.name == f[2] and ((not n.decorator_list and not as_property) or (as_property and is_prop)):
                     from .core import FuncRef as _FR
                     callee = _FR(mod, n, cls)
                     recv = f[1]
+                    deco_ok = as_property
         elif f[0] == "attr" and f[1] == ("param", "self") and self._cls_stack[-1] is not None:
             mod, cls = self._cls_stack[-1]
             for n in cls.body:
@@ -1218,6 +1220,13 @@ class FunctionTerms:
                     return cv if isinstance(cv, tuple) and cv and cv[0] in ("const", "slice") else self._named_value(cv, ctx)
             if fields is None and base[0] == "param" and not self._inline_stack:
                 fields = self._param_record_fields(base[1])
+            if fields is not None and e.attr not in fields and base != ("param", "self"):
+                # a @property of a record class (NamedTuple / frozen dataclass): read through with self = the record
+                rc = self._record_class(base)
+                if rc is not None and any(isinstance(n, ast.FunctionDef) and n.name == e.attr and n.decorator_list for n in rc[1].body):
+                    inl = self._inline_call(("attr", base, e.attr), [], [], env, ctx, as_property=True)
+                    if inl is not None:
+                        return inl
             if fields is not None and e.attr in fields:
                 i = fields.index(e.attr)
                 return base[1][i] if base[0] == "tuple" and len(base[1]) == len(fields) else ("index", base, ("const", i))
